@@ -426,7 +426,13 @@ func (rm *Manager) GetRelatedObjects(parent *unstructured.Unstructured) (commonv
 			if parentResource.Namespaced && len(relatedRule.Namespace) != 0 && parentNamespace != relatedRule.Namespace {
 				return nil, fmt.Errorf("requested related object namespace %s differs from parent object namespace %s", relatedRule.Namespace, parentNamespace)
 			}
-			all, err := listObjects(labels.Everything(), relatedRule.Namespace, informer)
+			// A namespaced parent only gets related objects of its own namespace, also
+			// when the rule leaves the namespace out (a different one was rejected above).
+			namespace := relatedRule.Namespace
+			if parentResource.Namespaced {
+				namespace = parentNamespace
+			}
+			all, err := listObjects(labels.Everything(), namespace, informer)
 			if err != nil {
 				return nil, fmt.Errorf("can't list %v related objects: %w", relatedClient.Kind, err)
 			}
